@@ -51,9 +51,28 @@ let print_result op (r : result) =
 
 let st : store ref = ref []
 
+(* Api layer (C05): per handle, what survives between calls; kept next to the store *)
+let ast : (int, api) Hashtbl.t = Hashtbl.create 16
+let api_reset h = (match get_h !st (nat_of_int h) with Some p -> Hashtbl.replace ast h (api_init p) | None -> Hashtbl.remove ast h)
+let zeros n = List.init n (fun _ -> q_of_string "0")
+let mk_basis cs rs = { ba_c = (if cs = "-" then [] else cl_of_string cs); ba_r = (if rs = "-" then [] else cl_of_string rs) }
+let mk_cache (p : prob) (pi : q list) =
+  let n = List.length p.p_cols and m = List.length p.p_rows in
+  { ca_val = q_of_string "0"; ca_x = zeros n; ca_pi = (if List.length pi = m then pi else zeros m); ca_rc = zeros n; ca_slack = zeros m }
+let print_api_state op (a : api) =
+  let zi z = BZ.to_string (z_of_coqz z) in
+  Printf.printf "R %s OK rv=0 qstatus=%s factorok=%d cache=%d" op (zi a.a_qstatus) (if a.a_factorok then 1 else 0) (match a.a_cache with Some _ -> 1 | None -> 0);
+  (match a.a_cache with Some c -> Printf.printf " cache_dims=%d,%d" (List.length c.ca_x) (List.length c.ca_pi) | None -> ());
+  (match a.a_basis with Some b -> Printf.printf " basis=%d,%d" (List.length b.ba_c) (List.length b.ba_r) | None -> print_string " basis=-");
+  print_newline ()
+
 let on op h (o : pop) =
   let (s', r) = sstep !sentinel !st (SOn (nat_of_int h, o)) in
-  st := s'; print_result op r
+  st := s';
+  (match Hashtbl.find_opt ast h with
+   | Some a -> let (a', _) = api_edit !sentinel a o in Hashtbl.replace ast h a'
+   | None -> ());
+  print_result op r
 
 let exec (toks : string list) =
   match toks with
@@ -64,10 +83,10 @@ let exec (toks : string list) =
       match op with
       | "CASE" -> print_endline ("CASE " ^ (match rest with t :: _ -> t | [] -> "?"))
       | "ECHO" -> print_endline (String.concat " " toks)
-      | "RESET" -> st := []; print_endline "R RESET OK rv=0"
+      | "RESET" -> st := []; Hashtbl.reset ast; print_endline "R RESET OK rv=0"
       | "CREATE" ->
         let h = handle (tk ()) in let _nm = tk () in let c = objsense_code (tk ()) in
-        let (s', r) = sstep !sentinel !st (SCreate (nat_of_int h, c)) in st := s'; print_result op r
+        let (s', r) = sstep !sentinel !st (SCreate (nat_of_int h, c)) in st := s'; api_reset h; print_result op r
       | "LOAD" ->
         let h = handle (tk ()) in let _nm = tk () in let c = objsense_code (tk ()) in
         let nc = tk_int () in let nr = tk_int () in
@@ -76,12 +95,12 @@ let exec (toks : string list) =
           let nm = name_opt (tk ()) in let o = tk_q () in let l = tk_q () in let u = tk_q () in let e = tk_ent () in
           ((((o, l), u), nm), e)) in
         let rows = tk_list nr (fun () -> let nm = name_opt (tk ()) in let s = code_char (tk ()) in let rhs = tk_q () in ((nm, s), rhs)) in
-        let (s', r) = sstep !sentinel !st (SLoad (nat_of_int h, c, cols, rows)) in st := s'; print_result op r
-      | "FREE" -> let h = handle (tk ()) in let (s', r) = sstep !sentinel !st (SFree (nat_of_int h)) in st := s'; print_result op r
+        let (s', r) = sstep !sentinel !st (SLoad (nat_of_int h, c, cols, rows)) in st := s'; api_reset h; print_result op r
+      | "FREE" -> let h = handle (tk ()) in let (s', r) = sstep !sentinel !st (SFree (nat_of_int h)) in st := s'; api_reset h; print_result op r
       | "COPY" ->
         let h = handle (tk ()) in let h2 = handle (tk ()) in
         let (s', r) = sstep !sentinel !st (SCopy (nat_of_int h, nat_of_int h2)) in
-        st := s'; (match r with RSkip when h = h2 -> print_endline "R COPY SKIP samehandle" | _ -> print_result op r)
+        st := s'; (if h <> h2 then api_reset h2); (match r with RSkip when h = h2 -> print_endline "R COPY SKIP samehandle" | _ -> print_result op r)
       | "NEWCOL" ->
         let h = handle (tk ()) in let o = tk_q () in let l = tk_q () in let u = tk_q () in let nm = name_opt (tk ()) in
         on op h (NewCol (o, l, u, nm))
@@ -183,6 +202,40 @@ let exec (toks : string list) =
                 (zi a.pa_pprice) (zi a.pa_dprice) (zi a.pa_display) (zi a.pa_maxiter) (zi a.pa_scaling)
                 (print_q a.pa_maxtime) (print_q a.pa_ulim) (print_q a.pa_llim))
          | _ -> print_endline "R Q NA")
+      | "SOLVE" ->
+        (* SOLVE h PRIMAL|DUAL ORACLE <status> <cstat> <rstat> PI <pi...> : the real solver's answer is the oracle of the Api model *)
+        let h = handle (tk ()) in
+        let w = tk () in
+        (match Hashtbl.find_opt ast h, w with
+         | Some a, ("PRIMAL" | "DUAL") ->
+           (match !cur with
+            | "ORACLE" :: stt :: cs :: rs :: "PI" :: pis ->
+              let ans = { an_status = z_of_tok stt; an_basis = mk_basis cs rs; an_sol = mk_cache a.a_p (List.map q_of_string pis) } in
+              let (a', err) = api_solve a (w = "DUAL") ans in
+              Hashtbl.replace ast h a';
+              print_endline (if err then "R SOLVE ERR" else "R SOLVE OK rv=0")
+            | _ -> print_endline "R SOLVE NA")
+         | _ -> print_endline "R SOLVE NA")
+      | "MLOADBASIS" ->
+        let h = handle (tk ()) in let cs = tk () in let rs = tk () in
+        (match Hashtbl.find_opt ast h with
+         | Some a -> let (a', err) = api_load_basis a (mk_basis cs rs) in Hashtbl.replace ast h a';
+           print_endline (if err then "R MLOADBASIS ERR" else "R MLOADBASIS OK rv=0")
+         | None -> print_endline "R MLOADBASIS SKIP nohandle")
+      | "SYNC" ->
+        (* adopt the observed state after a call the Api model does not predict (QSexact_solver):
+           SYNC h <qstatus> <factorok> <cache 0|1> <cstat|-|none> <rstat> PI <pi...> *)
+        let h = handle (tk ()) in let qs_ = tk_z () in let f = tk_int () in let c = tk_int () in let cs = tk () in let rs = tk () in
+        let pis = (match !cur with "PI" :: r -> List.map q_of_string r | _ -> []) in
+        (match Hashtbl.find_opt ast h with
+         | Some a ->
+           Hashtbl.replace ast h { a_p = a.a_p; a_basis = (if cs = "none" then None else Some (mk_basis cs rs));
+                                   a_cache = (if c = 1 then Some (mk_cache a.a_p pis) else None); a_qstatus = qs_; a_factorok = (f = 1) };
+           print_endline "R SYNC OK rv=0"
+         | None -> print_endline "R SYNC SKIP nohandle")
+      | "STATE" ->
+        let h = handle (tk ()) in
+        (match Hashtbl.find_opt ast h with Some a -> print_api_state op a | None -> print_endline "R STATE SKIP nohandle")
       | "DUMP" ->
         let h = handle (tk ()) in
         (match get_h !st (nat_of_int h) with
@@ -205,6 +258,7 @@ let () =
     | Some ("FORK" :: n :: _) ->
       (* the C side runs the next n lines in a forked child: their effect on the state is discarded *)
       let saved = !st in
+      let saved_a = Hashtbl.copy ast in
       let n = (try int_of_string n with _ -> 0) in
       (try
          for _ = 1 to n do
@@ -217,6 +271,7 @@ let () =
          done
        with Exit -> ());
       st := saved;
+      Hashtbl.reset ast; Hashtbl.iter (fun k v -> Hashtbl.replace ast k v) saved_a;
       print_endline "FORKEND OK";
       loop ()
     | Some [ "KKTU"; id ] ->
